@@ -11,6 +11,8 @@
 //	join <root> <req>              caddyhttp.SanitizedPathJoin     → ok <hex>
 //	match <pat> <name>             path.Match (+ filepath.Match)   → true | false | badpattern
 //	serve <cwd> <root> <hide> <index> <flags> <path> <orig> <tree>
+//	      flags = browse, pass_thru, canonical_uris [, root / every hide entry / every index name is
+//	      configured as a {http.vars.…} placeholder expanding to the field's value]
 //	matchfile <cwd> <root> <tries> <fallback> <path> <tree>
 //
 // see lean/CaddyModel/C07/Driver.lean for the field grammar and the answers.
@@ -31,6 +33,9 @@ import (
 
 	"github.com/caddyserver/caddy/v2"
 	"github.com/caddyserver/caddy/v2/modules/caddyhttp"
+	_ "github.com/caddyserver/caddy/v2/modules/caddyhttp/encode/brotli"
+	_ "github.com/caddyserver/caddy/v2/modules/caddyhttp/encode/gzip"
+	_ "github.com/caddyserver/caddy/v2/modules/caddyhttp/encode/zstd"
 	"github.com/caddyserver/caddy/v2/modules/caddyhttp/fileserver"
 
 	"verif/harness/internal/core"
@@ -207,6 +212,10 @@ type serveCase struct {
 	cwd, root         string
 	hide, index       []string
 	browse, pass, can bool
+	// the configured value is a placeholder ({http.vars.…}) that expands to the field's value
+	phRoot, phHide, phIndex bool
+	pre      [3]bool  // precompressed gzip, br, zstd configured
+	accepted []string // what encode.AcceptedEncodings shall return, in order
 	path, orig        string
 	tree              map[string]kind
 }
@@ -219,6 +228,7 @@ type serveObs struct {
 	listing  []string // names as listed (JSON), nil if not a listing
 	listDir  string   // name of the directory handle that was listed
 	fileName string   // name of the file handle that was read
+	sidecarEnc string // Content-Encoding of a served precompressed sidecar
 	fs       *memFS
 }
 
@@ -243,16 +253,47 @@ func runServe(c serveCase) (serveObs, error) {
 	m := newMemFS(c.cwd, c.tree)
 	theFS.cur = m
 	canon := c.can
+	vars := map[string]string{}
+	rootCfg := c.root
+	if c.phRoot {
+		// what the `root` directive does: Root stays empty (→ {http.vars.root}), the value is a var
+		rootCfg = ""
+		vars["root"] = c.root
+	}
+	hideCfg := append([]string{}, c.hide...)
+	if c.phHide {
+		for i, h := range hideCfg {
+			k := "c07h" + strconv.Itoa(i)
+			vars[k] = h
+			hideCfg[i] = "{http.vars." + k + "}"
+		}
+	}
+	indexCfg := append([]string{}, c.index...)
+	if c.phIndex {
+		for i, ix := range indexCfg {
+			k := "c07i" + strconv.Itoa(i)
+			vars[k] = ix
+			indexCfg[i] = "{http.vars." + k + "}"
+		}
+	}
 	fsrv := &fileserver.FileServer{
 		FileSystem:    fsName,
-		Root:          c.root,
-		Hide:          append([]string{}, c.hide...),
-		IndexNames:    append([]string{}, c.index...),
+		Root:          rootCfg,
+		Hide:          hideCfg,
+		IndexNames:    indexCfg,
 		PassThru:      c.pass,
 		CanonicalURIs: &canon,
 	}
 	if c.browse {
 		fsrv.Browse = &fileserver.Browse{}
+	}
+	for i, name := range []string{"gzip", "br", "zstd"} {
+		if c.pre[i] {
+			if fsrv.PrecompressedRaw == nil {
+				fsrv.PrecompressedRaw = caddy.ModuleMap{}
+			}
+			fsrv.PrecompressedRaw[name] = json.RawMessage("{}")
+		}
 	}
 	if err := fsrv.Provision(cctx); err != nil {
 		return serveObs{}, err
@@ -261,6 +302,17 @@ func runServe(c serveCase) (serveObs, error) {
 	m.opened, m.readFile, m.readDir = nil, nil, nil
 
 	r, w := newRequest(c.orig, c.path)
+	for k, v := range vars {
+		caddyhttp.SetVar(r.Context(), k, v)
+	}
+	if len(c.accepted) > 0 {
+		// strictly descending q-factors: AcceptedEncodings returns exactly this order
+		var parts []string
+		for i, e := range c.accepted {
+			parts = append(parts, fmt.Sprintf("%s;q=%.3f", e, 1.0-float64(i)*0.01))
+		}
+		r.Header.Set("Accept-Encoding", strings.Join(parts, ", "))
+	}
 	o := serveObs{fs: m}
 	next := caddyhttp.HandlerFunc(func(http.ResponseWriter, *http.Request) error { o.nextHit = true; return nil })
 	err := fsrv.ServeHTTP(w, r, next)
@@ -330,6 +382,11 @@ func runServe(c serveCase) (serveObs, error) {
 		o.outcome = "listing " + core.Hex(o.listDir) + " " + showList(o.listing)
 	case w.Code == 200 && strings.HasPrefix(o.body, "FILE:") && len(m.readFile) > 0:
 		id := strings.TrimSuffix(strings.TrimPrefix(o.body, "FILE:"), ":END\n")
+		if ce := w.Header().Get("Content-Encoding"); ce != "" {
+			o.sidecarEnc = ce
+			o.outcome = "sidecar " + core.Hex(o.fileName) + " " + id + " " + core.Hex(ce)
+			break
+		}
 		o.outcome = "file " + core.Hex(o.fileName) + " " + id
 	default:
 		o.outcome = "status:" + strconv.Itoa(w.Code)
@@ -455,7 +512,7 @@ func (prop) Run(line string) core.Outcome {
 		}
 		return o
 	case "serve":
-		if len(f) != 9 {
+		if len(f) != 9 && len(f) != 11 {
 			return bad()
 		}
 		var c serveCase
@@ -466,14 +523,34 @@ func (prop) Run(line string) core.Outcome {
 		c.root, e[1] = core.UnHex(f[2])
 		c.hide, ok1 = parseList(f[3])
 		c.index, ok2 = parseList(f[4])
-		bits, ok3 = parseBits(f[5], 3)
+		bits, ok3 = parseBits(f[5], len(f[5]))
+		if len(f[5]) != 3 && len(f[5]) != 6 {
+			ok3 = false
+		}
 		c.path, e[2] = core.UnHex(f[6])
 		c.orig, e[3] = core.UnHex(f[7])
 		c.tree, ok4 = parseTree(f[8])
 		if e[0] != nil || e[1] != nil || e[2] != nil || e[3] != nil || !ok1 || !ok2 || !ok3 || !ok4 || !validCwd(c.cwd) {
 			return bad()
 		}
+		if len(f) == 11 {
+			pb, okp := parseBits(f[9], 3)
+			acc, oka := parseList(f[10])
+			if !okp || !oka {
+				return bad()
+			}
+			for _, a := range acc {
+				// names are sent in a header field; keep them token-like and lower-case
+				if a == "" || strings.ToLower(a) != a || strings.ContainsAny(a, " ,;=\t\r\n\x00") {
+					return bad()
+				}
+			}
+			c.pre, c.accepted = [3]bool{pb[0], pb[1], pb[2]}, acc
+		}
 		c.browse, c.pass, c.can = bits[0], bits[1], bits[2]
+		if len(bits) == 6 {
+			c.phRoot, c.phHide, c.phIndex = bits[3], bits[4], bits[5]
+		}
 		obs, err := runServe(c)
 		if err != nil {
 			return core.Outcome{Impl: "harness-error", Tags: []string{"harness-error"},
